@@ -3,7 +3,7 @@ CONSTANTS
   LKeys = {4}
   R = 1
   P = 1
-  Q = 4
+  Q = 2
   HTabs <- AllHTabs
 INIT IInit
 NEXT INext
